@@ -268,9 +268,11 @@ def cases_strengthen(tier):
                     yield {'k': 'meth', 'kind': kname, 'name': name, 'prop': prop, 'eq': 1, 'dtype': dt,
                            'args': lit(tuple(args)) if args is not None else '()', 'kw': lit(kw or {}), 'a': lit(vals)}
     # ---- the same vectors under the operators (results compared sign- and type-exactly)
-    eq_scalars = [1, 1.0, -1.0, True, 0, 0.0, NZ, 2, 1j]
+    eq_scalars = [1, 1.0, -1.0, True, 0, 0.0, NZ, 2, 1j] if tier != 'quick' else [1.0, -1.0, NZ, 2, 1j]
     for kname in EQ_KINDS:
         vecs = eq_vectors(kname, 'quick')
+        if tier == 'quick':         # the multisets as written and reversed, and with one None in front
+            vecs = [list(b) for b in EQ_BASES[kname]] + [list(reversed(b)) for b in EQ_BASES[kname]] + [[None] + list(b) for b in EQ_BASES[kname][:3]]
         for vals in vecs:
             for op in UNOPS:
                 yield {'k': 'un', 'op': op, 'a': lit(vals), 'eq': 1}
